@@ -20,7 +20,7 @@ VARIABLES l,      \* next line of the trace
           st      \* trace state: [grp, U] unmasked symbol of the current same-payload group (C08)
 vars == <<l, lay, st>>
 
-Diag(k, rec, prop, why) == PrintT(<<"DIAG", ToJson([line |-> k, id |-> rec.id, property |-> prop, why |-> why])>>) /\ TLCSet(1, TLCGet(1) + 1)
+Diag(k, rec, prop, why) == PrintT(<<"DIAG", ToJson([line |-> k, id |-> rec.id, tag |-> rec.tag, property |-> prop, why |-> why])>>) /\ TLCSet(1, TLCGet(1) + 1)
 Require(cond, k, rec, prop, why) == IF cond THEN TRUE ELSE Diag(k, rec, prop, why)
 
 (* ---------------- unpacking ---------------- *)
